@@ -16,6 +16,7 @@ var findings = []struct{ fp, avoid string }{
 	{"C02:resync-gc-counts-marks-of-absent-objects", "ts-nonphysical"},
 	{"C02:tombstone-keeps-payload-of-link-objects", "ts-link"},
 	{"C02:mark-of-physical-parent-keeps-its-payload", "mark-phy-parent"},
+	{"C02:tombstone-on-redundant-marked-target-counts-garbage-twice", "ts-on-redundant"},
 }
 
 // applyKnown excludes, by construction, the history classes of findings that
